@@ -429,9 +429,10 @@ def _run_task_symbolic(modname, params, opts, t0):
     import z3
     from symx.engine import Engine
     mod = importlib.import_module(modname)
-    eng = Engine(timeout_ms=opts.get("timeout_ms", 10000), max_depth=opts.get("max_depth", 400),
+    # a task may carry its own solver / time limits (large single runs: many small queries, none of which should starve the others)
+    eng = Engine(timeout_ms=params.get("timeout_ms", opts.get("timeout_ms", 10000)), max_depth=opts.get("max_depth", 400),
                  max_paths=opts.get("max_paths", 20000), nonlinear=getattr(mod, "NONLINEAR", "nra"),
-                 max_task_s=opts.get("max_task_s"),
+                 max_task_s=params.get("max_task_s", opts.get("max_task_s")),
                  logic=getattr(mod, "LOGIC", None))
     if opts.get("dump_dir"):
         eng.dump_dir, eng.dump_limit = opts["dump_dir"], opts.get("dump_limit", 4)
